@@ -895,7 +895,7 @@ def gen_cases(chk):
     cases += gen_sparse(chk, 2000 if thorough else 200)
     cases += gen_entry_layout(chk, 3000 if thorough else 220, 600 if thorough else 60)
     cases += gen_numeric(chk, 1200 if thorough else 100)
-    cases += gen_long(chk, 28 if thorough else 5, 21 if thorough else 3)
+    cases += gen_long(chk, 70 if thorough else 16, 35 if thorough else 8)
     return [c for c in cases if in_space(c)]
 
 
@@ -971,7 +971,7 @@ def _pair_spec_term(case, out, n):
         h = h[: h.index(eos) + 1]
         if case["api"] == "prefix":
             col = col[: len(h) + (0 if e["exclude_last"] else 1)]
-    if len(r) > 16 or len(h) > 16:
+    if len(r) > 16 or len(h) > 16 or min(len(r), len(h)) > 7:  # the spec's recursion is exponential in the shorter side
         return None
     if case["api"] == "er":
         return f"spec_pair_er_okb {_spec_common(e)} {clz(r)} {clz(h)} {_q(col[0])}"
@@ -1127,10 +1127,21 @@ def run(chk, cases=None):
 
     found_concrete = False
     bad.sort(key=lambda i: (_wide(cases[i]), i))  # small inputs first
+    wide_bad = [i for i in bad if _wide(cases[i]) and "exc" not in outs[i] and outs[i]["val"] != "nonfinite"
+                and _shape_ok(cases[i], outs[i])]
+    if wide_bad and len(wide_bad) == len(bad):  # only wide batches disagree: look for one with a spec-rejected short pair
+        idx = [(i, t) for i in wide_bad[:40] for n in range(len(cases[i]["ref"]))
+               for t in [_pair_spec_term(cases[i], outs[i], n)] if t]
+        rej = coq_eval_bools(chk.workdir, IMPORTS, [t for _, t in idx], tag="widespec") if idx else []
+        hit = [i for (i, _), ok in zip(idx, rej) if not ok]
+        if hit:
+            bad.remove(hit[0])
+            bad.insert(0, hit[0])
     for i in bad[:4]:
         if _wide(cases[i]) and found_concrete:
             continue
-        case = shrink(cases[i], lambda c: _fails(chk, c), _cands, budget=60 if not _wide(cases[i]) else 12)
+        # a wide batch is judged as it is: its short pairs are what the spec can evaluate
+        case = cases[i] if _wide(cases[i]) else shrink(cases[i], lambda c: _fails(chk, c), _cands, budget=60)
         out = run_impl(case)
         rec, spec_ok = judge_long(chk, case, out) if _wide(case) else judge(chk, case, out)
         if not spec_ok:
